@@ -331,6 +331,15 @@ def replay_z3(rep, path, keep=False):
                 return 1
             log("counterexample no longer reproduces on the current tree")
             return 0
+        if rep.get("kind") == "c12-rpc":
+            real = native_real_id(ovdir, rep["witness"], rep["mode"])
+            w = bytes.fromhex(rep["witness"])
+            is_call = (real == 6 and w[4:8] == b"\x00" * 4) or (real == 5 and w[8:12] == b"\x00" * 4)
+            log("replay z3 witness %s (%s): real matcher -> %s, message type CALL: %s" % (rep["witness"], rep["mode"], real, is_call))
+            if real in (5, 6) and not is_call:
+                print("VIOLATION property=%s replay=%s" % (rep["property"], path))
+                return 1
+            return 0
         real = native_real_id(ovdir, rep["witness"], rep["mode"])
         ref = ref_id(rep["witness"], rep["mode"])
         log("replay z3 witness %s (%s): real matcher -> %s, signature set -> %s" % (rep["witness"], rep["mode"], real, ref))
